@@ -35,7 +35,7 @@ TRUSTED = [
     "(Section variables sc/scal of the model; the correspondence uses objective_scaler='identity' and the Linear scalarisation "
     "with dyadic weights, for which the model has concrete instances)",
     "the surrogate fit succeeds on finite y (fit_ok); sklearn estimators reject NaN/inf/strings in y",
-    "np.mean / np.max / np.min / np.dot / np.negative on small dyadic values are exact up to one correctly rounded division",
+    "np.mean / np.max / np.min / np.dot / np.negative on small dyadic values are exact except for the division by a count in a mean (compared within 2^-50 relative; everything dyadic is compared exactly)",
     "pandas.read_csv keeps a cell that starts with 'F' as a string (objective cells of the returned table)",
 ]
 ASSUMPTIONS = [
@@ -43,6 +43,10 @@ ASSUMPTIONS = [
     "a string that does not start with 'F' and a tuple containing a failure string are outside the statement (modelled, not generated at search level)",
     "max_failures (default 100) is larger than every generated pattern; with n_initial_points >= 1 ExhaustedFailures is unreachable (theorem C06_no_exhaustion)",
     "process/thread evaluators are not used: the serial evaluator runs the replaying run-function",
+    "with num_workers = 2 the two labelings are not compared proposal by proposal (jobs finishing in one gather come back in the iteration order of a "
+    "set, which is C07's subject); returning, marked rows and bounds are checked for both labelings, and the optimizer state against the model's run "
+    "over the batches actually told",
+    "multi-point asks other than the constant liar (qUCB, topk, boltzmann) and acq functions with per-second costs ('ps') are not modelled",
 ]
 RULE = ("on_done: k in 1..3 x return form {raw, dict, dict+metadata, output+metadata} x scalar/tuple/list x number flavour {py, np64, np32} x "
         "element kind {finite dyadic, nan, +inf, -inf, 'F...' string, other string}; cbo_tell/filter_failures/optimizer_tell: batches of told values "
@@ -217,7 +221,7 @@ def enc_f(x):
 
 
 def same_f(d, v):
-    """model fnum d  vs  implementation float v (the model's rational is rounded once, like the one division of np.mean)."""
+    """model fnum d  vs  implementation float v: exact on dyadic values, within 2^-50 relative where the model divided by a count."""
     try:
         v = float(v)
     except (TypeError, ValueError):
@@ -228,7 +232,13 @@ def same_f(d, v):
         return v == math.inf
     if d[0] == 3:
         return v == -math.inf
-    return math.isfinite(v) and float(Fraction(d[1], d[2])) == v   # float(Fraction) is correctly rounded
+    if not math.isfinite(v):
+        return False
+    q = Fraction(d[1], d[2])
+    if q.denominator & (q.denominator - 1) == 0:
+        return float(q) == v               # dyadic: exact
+    # a mean over 3, 5, 6, 7 ... values: the code rounds once per division (twice for a cl_mean lie over imputed means)
+    return abs(Fraction(v) - q) <= abs(q) * Fraction(1, 2 ** 50)
 
 
 def enc_elem(v, toks):
@@ -709,7 +719,7 @@ def check_opttell(case):
         res["desc"] = res["desc"] + ["lie"]
         if lie[0] == 0:
             if exc or not _LIES:
-                return dict(res, ok=False, kind="oracle", clause="lie_shape_error", detail=dict(case=case, exc=exc, model=lie))
+                return dict(res, ok=False, kind="oracle", clause="multi_point_ask_failed", detail=dict(case=case, exc=exc, model=lie))
             if not same_told(lie[1], _LIES[0]):
                 return dict(res, ok=False, clause="lie_value", detail=dict(case=case, impl=show(_LIES[0]), model=lie))
         elif exc is None:
